@@ -685,7 +685,7 @@ fn monitors<M: RawMutex + 'static>(chan: &Chan<M>, m: &Model, slots: &[Slot<RFut
     }
     order.clear();
     if have {
-        let views: Vec<SlotView> = slots
+        let views: Views = slots
             .iter()
             .enumerate()
             .map(|(i, s)| SlotView { queue: 0, idx: i as u8, range: s.range(), pending: s.pending(), woken: s.woken() })
